@@ -22,6 +22,8 @@ COLS = {
              "if": "i_from_ka", "it": "i_to_ka", "ika": "i_ka", "load": "loading_percent"},
     "trafo": {"ph": "p_hv_mw", "qh": "q_hv_mvar", "plv": "p_lv_mw", "qlv": "q_lv_mvar", "pl": "pl_mw", "ql": "ql_mvar",
               "ih": "i_hv_ka", "ilv": "i_lv_ka", "load": "loading_percent"},
+    "trafo3w": {"ph": "p_hv_mw", "qh": "q_hv_mvar", "pm": "p_mv_mw", "qm": "q_mv_mvar", "plv": "p_lv_mw", "qlv": "q_lv_mvar", "pl": "pl_mw",
+                "ql": "ql_mvar", "ih": "i_hv_ka", "im": "i_mv_ka", "ilv": "i_lv_ka", "load": "loading_percent"},
     "impedance": {"pf": "p_from_mw", "qf": "q_from_mvar", "pt": "p_to_mw", "qt": "q_to_mvar", "pl": "pl_mw", "ql": "ql_mvar",
                   "if": "i_from_ka", "it": "i_to_ka"},
     "ext_grid": {"p": "p_mw", "q": "q_mvar"},
@@ -32,10 +34,15 @@ COLS = {
     "xward": {"p": "p_mw", "q": "q_mvar", "vm": "vm_pu", "vmi": "vm_internal_pu", "vai": "va_internal_degree"},
     "shunt": {"p": "p_mw", "q": "q_mvar", "vm": "vm_pu"},
 }
-ORDER = ["bus", "line", "trafo", "impedance", "switch", "ext_grid", "gen", "sgen", "load", "ward", "xward", "shunt"]
-# the one transformer type of the template (level table; no transformation touches transformer parameters)
+ORDER = ["bus", "line", "trafo", "trafo3w", "impedance", "switch", "ext_grid", "gen", "sgen", "load", "ward", "xward", "shunt"]
+# the transformer types of the template (level table; no transformation touches transformer parameters)
 TRAFO = dict(sn_mva=1.0, vn_hv_kv=20., vn_lv_kv=0.4, vkr_percent=1.0, vk_percent=6., pfe_kw=1.0, i0_percent=0.1, shift_degree=150.,
              tap_side="hv", tap_neutral=0, tap_min=-2, tap_max=2, tap_step_percent=2.5, tap_pos=1, tap_changer_type="Ratio")
+TRAFO3W = dict(vn_hv_kv=20., vn_mv_kv=10., vn_lv_kv=0.4, sn_hv_mva=2.0, sn_mv_mva=2.0, sn_lv_mva=1.0, vk_hv_percent=6., vk_mv_percent=6.,
+               vk_lv_percent=5., vkr_hv_percent=0.6, vkr_mv_percent=0.6, vkr_lv_percent=0.5, pfe_kw=2.0, i0_percent=0.1, shift_mv_degree=0.,
+               shift_lv_degree=150., tap_side="hv", tap_neutral=0, tap_min=-2, tap_max=2, tap_step_percent=2.5, tap_pos=1,
+               tap_changer_type="Ratio")
+SW_TABLE = {"b": "bus", "l": "line", "t": "trafo", "t3": "trafo3w"}      # EquivDef!SwTab
 
 
 def _tab(net, t):
@@ -52,7 +59,7 @@ def build(absnet):
     import pandapower as pp
     net = pp.create_empty_network(sn_mva=float(absnet["sn"]))
     bidx = {n: r["idx"] for n, r in _tab(absnet, "bus").items()}
-    lidx = {n: r["idx"] for n, r in _tab(absnet, "line").items()}
+    eidx = {t: {n: r["idx"] for n, r in _tab(absnet, t).items()} for t in SW_TABLE.values()}
     for n, r in _rows(absnet, "bus"):
         pp.create_bus(net, vn_kv=r["vn"] / 10.0, name=n, index=r["idx"], in_service=r["ins"])
     for n, r in _rows(absnet, "line"):
@@ -61,11 +68,14 @@ def build(absnet):
                                        g_us_per_km=float(r["g"]), parallel=r["par"], name=n, index=r["idx"], in_service=r["ins"])
     for n, r in _rows(absnet, "trafo"):
         pp.create_transformer_from_parameters(net, bidx[r["hv"]], bidx[r["lv"]], name=n, index=r["idx"], in_service=r["ins"], **TRAFO)
+    for n, r in _rows(absnet, "trafo3w"):
+        pp.create_transformer3w_from_parameters(net, bidx[r["hv"]], bidx[r["mv"]], bidx[r["lv"]], name=n, index=r["idx"],
+                                                in_service=r["ins"], **TRAFO3W)
     for n, r in _rows(absnet, "impedance"):
         pp.create_impedance(net, bidx[r["from"]], bidx[r["to"]], rft_pu=r["r"] / 1e4, xft_pu=r["x"] / 1e4, sn_mva=float(r["sn"]),
                             name=n, index=r["idx"], in_service=r["ins"])
     for n, r in _rows(absnet, "switch"):
-        el = bidx[r["elem"]] if r["et"] == "b" else lidx[r["elem"]]
+        el = eidx[SW_TABLE[r["et"]]][r["elem"]]
         pp.create_switch(net, bidx[r["bus"]], el, et=r["et"], closed=r["closed"], name=n, index=r["idx"])
     for n, r in _rows(absnet, "ext_grid"):
         pp.create_ext_grid(net, bidx[r["bus"]], vm_pu=r["vm"] / 1000.0, va_degree=0.0, name=n, index=r["idx"], in_service=r["ins"])
@@ -128,6 +138,7 @@ def project(net):
     """structural projection of a real network (EquivDef!Proj): references resolved to NAMES"""
     bname = _names(net, "bus")
     lname = _names(net, "line")
+    ename = {"b": bname, "l": lname, "t": _names(net, "trafo"), "t3": _names(net, "trafo3w")}
 
     def bn(i):
         return bname.get(int(i), "?%s" % i)
@@ -139,12 +150,14 @@ def project(net):
     out["impedance"] = {n: {"from": bn(net.impedance.at[i, "from_bus"]), "to": bn(net.impedance.at[i, "to_bus"]),
                             "ins": bool(net.impedance.at[i, "in_service"])} for i, n in _names(net, "impedance").items()}
     out["trafo"] = {n: {"hv": bn(net.trafo.at[i, "hv_bus"]), "lv": bn(net.trafo.at[i, "lv_bus"]), "ins": bool(net.trafo.at[i, "in_service"])}
-                    for i, n in _names(net, "trafo").items()}
+                    for i, n in ename["t"].items()}
+    out["trafo3w"] = {n: {"hv": bn(net.trafo3w.at[i, "hv_bus"]), "mv": bn(net.trafo3w.at[i, "mv_bus"]), "lv": bn(net.trafo3w.at[i, "lv_bus"]),
+                          "ins": bool(net.trafo3w.at[i, "in_service"])} for i, n in ename["t3"].items()}
     sw = {}
     for i, n in _names(net, "switch").items():
         et = str(net.switch.at[i, "et"])
         el = int(net.switch.at[i, "element"])
-        sw[n] = {"bus": bn(net.switch.at[i, "bus"]), "et": et, "elem": bn(el) if et == "b" else lname.get(el, "?%s" % el)}
+        sw[n] = {"bus": bn(net.switch.at[i, "bus"]), "et": et, "elem": ename.get(et, {}).get(el, "?%s" % el)}
     out["switch"] = sw
     return out
 
@@ -291,7 +304,7 @@ def enumerate_states(prop, seed, nrandom, ncorner=1):
 
 
 # ---- the check (shared by checks/c05.py and checks/c23.py) ---------------------------------------------------------------------
-BASE = ("lvl", "ring", "cva", "tmodel", "sn", "layout", "swend")
+BASE = ("lvl", "ring", "cva", "tmodel", "sn", "layout", "swend", "tsw")
 SUM_TR = {"split", "par_expand", "fuse_move", "fuse_buses", "ward2int", "xward2int"}
 REN_TR = {"par_expand", "line2imp", "imp2line", "eg2gen", "ward2int", "xward2int"}
 
@@ -303,6 +316,8 @@ def feature(cfg):
         return "replace_line_by_impedance|" + ("line_index=position" if cfg["layout"] == "id" else "line_index!=position")
     if tr == "xward2int":
         return "replace_xward_by_internal_elements|" + ("sn_mva=1" if cfg["sn"] == 1 else "sn_mva!=1")
+    if tr == "subnet":
+        return "select_subnet|" + ("trafo3w_switch" if cfg.get("tsw", "none") != "none" else "no_trafo3w_switch")
     return tr
 
 
@@ -364,8 +379,9 @@ def run_prop(prop, tier, seed, replay=None):
         "evaluations": len(cases),
         "distinct_nontrivial": len({repr(sorted(c["cfg"].items())) for c in good if c["changed"]}),
         "rule": "states of Equiv.tla: every (transformation, target) candidate on one (quick) / two (thorough) corner base variants plus, per transformation, a TLC "
-                "RandomSubset (seeded) of candidates x 192 base variants (load level, ring line, calculate_voltage_angles, trafo_model, sn_mva, index layout, end of "
-                "the open line switch), filtered by the spec's Applicable; non-trivial = the transformed abstract network differs from the "
+                "RandomSubset (seeded) of candidates x 960 base variants (load level, ring line, calculate_voltage_angles, trafo_model, sn_mva, index layout, end of "
+                "the open line switch, switches at transformers: none / closed / open at one side of a two-winding and of a three-winding "
+                "transformer; both corners have open transformer switches), filtered by the spec's Applicable; non-trivial = the transformed abstract network differs from the "
                 "original, the transformation was carried out and both power flows converged",
         "states": mstates + ost["states"], "transitions": mtrans + ost["generated"], "traces_validated_against_impl": len(cases),
         "both_converged": len([c for c in cases if c["okA"] and c["okB"]]),
@@ -379,8 +395,8 @@ def run_prop(prop, tier, seed, replay=None):
         "by_transformation": by_tr, "errors": sorted({c["err"] for c in cases if c["err"]})[:10],
         "samples": smp, "exhaustive": False,
     }
-    v.assumptions = ["one template network (9 buses in two islands + one de-energised bus, 7 lines, transformer, impedance, 2 switches, 17 bus "
-                     "elements); parameters are the integers of the abstract network (EquivDef.tla), no jitter",
+    v.assumptions = ["one template network (12 buses in two islands + one de-energised bus, 7 lines, 3 transformers, 2 three-winding "
+                     "transformers, impedance, 2-4 switches, 20 bus elements; open transformer switches never de-energise a bus); parameters are the integers of the abstract network (EquivDef.tla), no jitter",
                      "tolerance 30 micro-units + 20 ppm per compared value between two solves with tolerance_mva=1e-10; non-converged runs "
                      "satisfy every relation vacuously and are counted",
                      "replace_line_by_impedance / replace_impedance_by_line: the new element is located by the RETURNED index (the functions "
